@@ -597,3 +597,66 @@ Proof.
   apply andb_true_iff in Ha. destruct Ha as [H1 H2]. apply Z.eqb_eq in H1. apply Z.eqb_eq in H2.
   exists a'. split; [reflexivity|]. split; congruence.
 Qed.
+
+(* ====================================================================== *)
+(* 6. the default-penalty QUBOs of the sequence-based objects (C04_default_exact) *)
+(* ====================================================================== *)
+Lemma seq_solution_sys I E x v : Seq.R_entries I = Ok E ->
+  (seq_solution I x v <-> (sys_feasible (seq_sys I E) x /\ sys_value (seq_sys I E) x = v)).
+Proof.
+  intros HE. unfold seq_solution, sys_feasible, sys_value, seq_sys, Zfeasible. cbn [zs_rows zs_cols zs_A zs_b zs_R zs_c zs_Qo].
+  split.
+  - intros (Hb & (E' & HE' & Hlin & Hq) & Hv). rewrite HE in HE'. inversion HE'; subst E'.
+    split; [split; [exact Hb|split; [exact Hlin|exact Hq]]|exact Hv].
+  - intros ((Hb & Hlin & Hq) & Hv). split; [exact Hb|]. split; [|exact Hv].
+    exists E. split; [exact HE|]. split; [exact Hlin|exact Hq].
+Qed.
+
+Lemma seq_R_nonneg I E : R_nonneg (zs_cols (seq_sys I E)) (zs_R (seq_sys I E)).
+Proof. intros i j _ _. apply Seq_facts.Rmat_nonneg. Qed.
+
+(* non-strict: a minimiser of the default-penalty QUBO (rho = S + 1, S any bound on the sum of the
+   |objective coefficients|) costs at most as much as any route partition *)
+Theorem seq_nonstrict_qubo_le st I E S :
+  Inv (pg st) -> no_depot_loop st -> seq_view st I ->
+  (1 <= num_nodes st)%nat -> (3 <= Seq.iL I)%nat ->
+  (num_nodes st - 1 <= Seq.iV I)%nat -> (num_nodes st - 1 + 2 <= Seq.iL I)%nat ->
+  Seq.R_entries I = Ok E ->
+  coeff_sum (Seq.num_variables I) (Seq.cvec I) (Seq.Qo I) <= S ->
+  forall R x, partition st R -> sys_qubo_min (seq_sys I E) S x ->
+    sys_qubo_value (seq_sys I E) S x <= total_cost st R /\
+    exists W, Seq.walk_assignment I W /\ seq_cost I W = sys_qubo_value (seq_sys I E) S x.
+Proof.
+  intros HI Hl Hv Hn HL3 HV HL HE HS R x HR Hx.
+  destruct (seq_nonstrict_le st I HI Hl Hv (total_cost st R) Hn HL3 HV HL (ex_intro _ R (conj HR eq_refl))) as (x0 & Hx0).
+  apply (seq_solution_sys I E x0 _ HE) in Hx0. destruct Hx0 as [Hf0 Hv0].
+  destruct (sys_default_exact (seq_sys I E) S (seq_R_nonneg I E) HS (ex_intro _ x0 Hf0)) as [Hsets Hval].
+  destruct (proj1 (Hsets x) Hx) as [Hfx Hminx].
+  assert (Evx : sys_qubo_value (seq_sys I E) S x = sys_value (seq_sys I E) x) by (apply (Hval x x Hx Hfx Hminx)).
+  split; [rewrite Evx, <- Hv0; apply Hminx; exact Hf0|].
+  destruct Hv as (Hnodes & Hkeys & H00 & _ & _).
+  apply (solution_walk st I Hnodes Hkeys H00 x _ Hn HL3).
+  apply (seq_solution_sys I E x _ HE). split; [exact Hfx|symmetry; exact Evx].
+Qed.
+
+(* strict: when the strict program is feasible, the minimum of its default-penalty QUBO is the cost of a
+   route partition (hence at least the VRPTW optimum) *)
+Theorem seq_strict_qubo_ge st I E S :
+  no_depot_loop st -> seq_view_strict st I ->
+  Seq_facts.strict_graph (Seq.ig I) -> Seq_facts.windows_ok (Seq.ig I) ->
+  capacity_free st -> 0 <= nlo (Path.node_at (pg st) O) ->
+  (1 <= num_nodes st)%nat -> (3 <= Seq.iL I)%nat ->
+  Seq.R_entries I = Ok E ->
+  coeff_sum (Seq.num_variables I) (Seq.cvec I) (Seq.Qo I) <= S ->
+  (exists z v, seq_solution I z v) ->
+  forall x, sys_qubo_min (seq_sys I E) S x ->
+    exists R, partition st R /\ total_cost st R = sys_qubo_value (seq_sys I E) S x.
+Proof.
+  intros Hl Hv Hsg Hw Hc Hd Hn HL HE HS (z & vz & Hz) x Hx.
+  apply (seq_solution_sys I E z _ HE) in Hz. destruct Hz as [Hfz _].
+  destruct (sys_default_exact (seq_sys I E) S (seq_R_nonneg I E) HS (ex_intro _ z Hfz)) as [Hsets Hval].
+  destruct (proj1 (Hsets x) Hx) as [Hfx Hminx].
+  assert (Evx : sys_qubo_value (seq_sys I E) S x = sys_value (seq_sys I E) x) by (apply (Hval x x Hx Hfx Hminx)).
+  apply (seq_strict_ge st I _ Hl Hv Hsg Hw Hc Hd Hn HL). exists x.
+  apply (seq_solution_sys I E x _ HE). split; [exact Hfx|symmetry; exact Evx].
+Qed.
